@@ -352,18 +352,37 @@ def run_pf_cases(exe, cases):
     return res
 
 
+def rle(ch):
+    """lossless run-length encoding of an invocation list: (a, len, n) = n invocations [a+i*len, a+(i+1)*len)"""
+    runs = []
+    for a, b in ch:
+        if runs and runs[-1][1] == b - a and runs[-1][0] + runs[-1][1] * runs[-1][2] == a:
+            runs[-1][2] += 1
+        else:
+            runs.append([a, b - a, 1])
+    back = [(a + i * l, a + (i + 1) * l) for a, l, n in runs for i in range(n)]
+    assert back == list(ch)
+    return runs
+
+
 def coq_case(c, l3, overrun, ch):
-    return '(%s, %d, %s, %s)' % (coq_cfg(c), l3, 'true' if overrun else 'false', coq_pairs(ch) if ch else '(@nil (Z * Z))')
+    """flat list of Z understood by C12Check.decode_case (type-checks an order of magnitude faster than nested tuples)"""
+    kn = c['kn']
+    chunkv = {'s': kmax(kn), 'a': 0}.get(c['mode'], c['chunk'])
+    v = [kn, c['s'], c['e'], chunkv, c['N'], c['maxT'], c['minItems'], c['g'], 1 if c['wait'] else 0, l3, 1 if overrun else 0]
+    for a, l, n in rle(ch):
+        v += [a, l, n]
+    return dv.coq_list([dv.zlit(x) for x in v])
 
 
-def judge_pf(ctx, name, judge, cases, results, l3, per_file=700):
+def judge_pf(ctx, name, judge, cases, results, l3, per_file=2000):
     """evaluate `judge` (judge_c12 / judge_c13) inside Coq on (config, what the implementation did).  -> verdict list or None"""
     verdicts = []
     idx = [i for i, (ov, ch, raw) in enumerate(results) if ch is not None]
     k = 0
     for part in [idx[i:i + per_file] for i in range(0, len(idx), per_file)] or [[]]:
         terms = [coq_case(cases[i], l3, results[i][0], results[i][1]) for i in part]
-        res = coq_judge(ctx, '%s_%d' % (name, k), PF_IMPORTS, [(judge, terms)])
+        res = coq_judge(ctx, '%s_%d' % (name, k), PF_IMPORTS, [(judge + '_flat', terms)])
         k += 1
         if res is None:
             return None
